@@ -30,6 +30,8 @@ SPEC = {
         # "writing a snapshot and loading it back reproduces every … log entry with identical content", also after gossip merges
         # replaced locally logged entries (C10's engine: two real logs, merges, restart through the real Maintenance loop)
         {"name": "nflog", "pkg": "./nflog", "search_cases": 8000, "quick_cases": 1200, "only": ["reload_lossless", "data_preserved"]},
+        # "already-sent notifications are not repeated after a restart": what the log stores about a notification (alert hashes) must mean the same to the next process (C04's engine)
+        {"name": "pipe", "pkg": "./pipe", "search_cases": 6000, "quick_cases": 800, "only": ["entry_is_last_delivered"]},
     ],
     "rule": "real nflog.Log and silence.Silences: (a) generated stores (0..200 records quick, ..5000 thorough; shapes mix/min/multi/big, "
             "contents through Merge and through the write APIs Log/Set) -> Snapshot or real Maintenance -> load through SnapshotReader/SnapshotFile "
